@@ -93,7 +93,10 @@ def interp_exp_and_lin_numpy(x11, x12, x21, x22, T, Tmin, Tmax, P, Pmin, Pmax):
         
         """
 
-        return ((x11*(Pmax - Pmin) - (P - Pmin)*(x11 - x21))*np.exp(Tmax*(-T + Tmin)*np.log((x11*(Pmax - Pmin) - (P - Pmin)*(x11 - x21))/(x12*(Pmax - Pmin) - (P - Pmin)*(x12 - x22)))/(T*(Tmax - Tmin)))/(Pmax - Pmin))
+        w = (P - Pmin)/(Pmax - Pmin)
+        a = x11*(1.0 - w) + x21*w
+        b = x12*(1.0 - w) + x22*w
+        return a*np.exp(Tmax*(-T + Tmin)*np.log(a/b)/(T*(Tmax - Tmin)))
 
 
 def interp_exp_numpy(x11,x12,T,Tmin,Tmax):
